@@ -168,8 +168,10 @@ class WorkflowGraph(metaclass=abc.ABCMeta):
         )
 
     def get_prev_transitions(self, task_id):
+        # Sort by the source task and the key of the transition. The destination is the task itself.
         return sorted(
-            [e for e in self._graph.in_edges([task_id], data=True, keys=True)], key=lambda x: x[1]
+            [e for e in self._graph.in_edges([task_id], data=True, keys=True)],
+            key=lambda x: (x[0], x[2]),
         )
 
     def get_barriers(self):
